@@ -199,7 +199,7 @@ def check_simplify(s, u, fails):
     else:
         shown = simp
     if simp is None:
-        if not (F(u._factor) == 1 and F(u._offset) == 0 and not any(u._powers)):
+        if not (rel_close(F(u._factor), Fraction(1)) and F(u._offset) == 0 and not any(u._powers)):
             fails.append(('simplify-none', 'simplify_unit(%r) is None but factor=%r offset=%r powers=%s' % (
                 s, u._factor, u._offset, u._powers)))
         return None
